@@ -103,6 +103,8 @@ func c15Run(cfgIdx int, hist []int) *mc.SeqOut {
 			fail("standby-poll", "%v", err)
 			return false
 		}
+		// ... and it serves a follower read: it adopts the leader's read revision (what the revision syncer does)
+		sb.SetCurrentRevision(old.GetCurrentRevision())
 		return true
 	}
 	if standby {
@@ -252,7 +254,7 @@ func init() {
 	mc.Register(&mc.Property{
 		ID:     "C15",
 		Level:  "fault_enumeration",
-		Rule:   "every history of the old leader up to depth 3 (thorough 5) over {create/update/delete on 2 keys, 1/10/100 failed writes (which consume revisions without touching the engine), lock renewal}, the old leader stopping after every history (every prefix is a history), then a new leader over the same store - either a node started afterwards, or a standby created at the start that polled the lock during the old leader's term (after its election and after every renewal) - taking the lock over through the real resource lock (get, update, get) and running the production OnStartedLeading code; on memkv (virtual clock advanced by 1 ms), badger and tikv-mock with a fresh database per history; oracle: the first three revisions of the new leader exceed every revision in the store, guarded updates of all pre-existing live keys succeed, List equals the model; a case is distinct by its history and engine",
+		Rule:   "every history of the old leader up to depth 3 (thorough 5) over {create/update/delete on 2 keys, 1/10/100 failed writes (which consume revisions without touching the engine), lock renewal}, the old leader stopping after every history (every prefix is a history), then a new leader over the same store - either a node started afterwards, or a standby created at the start that polled the lock and served a follower read (adopting the leader's read revision) during the old leader's term, after its election and after every renewal - taking the lock over through the real resource lock (get, update, get) and running the production OnStartedLeading code; on memkv (virtual clock advanced by 1 ms), badger and tikv-mock with a fresh database per history; oracle: the first three revisions of the new leader exceed every revision in the store, guarded updates of all pre-existing live keys succeed, List equals the model; a case is distinct by its history and engine",
 		Assume: []string{"OnStartedLeading is the production function literal, lifted by the instrumenter into a callable method (client-go's real-time elector loop is not run)", "the old leader is simply not used any more (crash = stop)"},
 		Exec:   func(j *mc.Job) *mc.JobResult { return mc.SeqExec(j, c15Run) },
 		Drive: func(c *mc.Ctx) {
